@@ -125,6 +125,13 @@ class Kernel:
     def me(self) -> VThread | None:
         return self.by_ident.get(_thread.get_ident())
 
+    def abort_if_killed(self):
+        """Called by operations that could block or loop: a vthread that is being
+        unwound must not keep executing workload code."""
+        vt = self.by_ident.get(_thread.get_ident())
+        if vt is not None and vt.killed:
+            raise SimAbort()
+
     def inert(self):
         """True when the caller must not interact with the simulation: it is not a
         vthread, or it is being unwound."""
@@ -307,7 +314,8 @@ class Kernel:
                 continue
             v.killed = True
             v.sem.release()
-            v.done_lock.acquire()
+            if not v.done_lock.acquire(timeout=20):
+                raise HarnessError(f'vthread {v.name} did not unwind within 20 s')
             v.done_lock.release()
         if me is not None and me in victims:
             me.killed = True
